@@ -182,7 +182,7 @@ def case_strategy(draw, tier):
                  [draw(rate_int) for _ in range(6)]] for w in range(nwells)]
     return {"units": units, "start": draw(st.sampled_from(STARTS)), "parents": parents, "wells": wells,
             "steps": steps, "init": init, "dup_summary": draw(st.integers(0, 4)) == 0,
-            "udq_flit": draw(st.integers(0, 3)) == 0}
+            "udq_flit": draw(st.sampled_from([False] * 7 + [True]))}
 
 
 # ------------------------------------------------------------------------------------------------ model
@@ -546,11 +546,11 @@ class C09(Check):
         "later report step is absent from data::Wells before that step and its vectors may then be absent or zero",
         "vectors not accepted by the SUMMARY parser or absent from the evaluator table (WLIR, GLIT, V-history, "
         "GOITH, G/F WGR/OGR ...) are not requested; FLIR/FLIT (evaluator table only) are requested through a UDQ "
-        "definition in a quarter of the cases",
+        "definition in about one case in eight",
     ]
-    EXAMPLES = {"quick": 80, "thorough": 1500}       # per shard (16 shards); ~0.16 s per case on a free core
+    EXAMPLES = {"quick": 80, "thorough": 1200}       # per shard (16 shards); ~0.16 s per case on a free core
     MIN_EVALS = {"quick": 600, "thorough": 8000}
-    TIME_CAP = {"quick": 170, "thorough": 1100}
+    TIME_CAP = {"quick": 170, "thorough": 800}
     LEVEL_TEXT = ("Generated-model search with a reference accumulator: for each generated deck and simulator-result "
                   "history the expected value of ~700 vectors x up to ~20 evaluations is computed independently "
                   "(efficiency-factor products along the group path, sign split, sums, ratios, calendar) and "
